@@ -5,20 +5,30 @@
 //! Op grammar (one per line):
 //!   case <name>
 //!   mode arc|arena                     (which handle family; echo `ok`)
+//!   acc <n>                            accessor / constructor variety (echo `ok`): every read site, write site, signal
+//!                                      and memo definition picks its accessor / constructor / handle family from
+//!                                      n + its site index (see `tracked!`, `untracked!`, `write_acc!`, `memo_ctor`,
+//!                                      `sig_split`); without the line everything is `.get()` / `.set()` / `Memo::new`
 //!   sig <init>                         node ids are assigned in order of definition
 //!   memo <expr>
+//!   memoc <k> <expr>                   memo with the COARSE comparator `|a, b| a.div_euclid(k) != b.div_euclid(k)`
+//!                                      (2 <= k <= 9).  A coarse comparator deliberately suppresses downstream
+//!                                      notification, so a memoc node must be a LEAF: a later def that reads it is `bad-op`.
+//!   sel <K> <expr>                     `Selector::new(move || expr)`: defines K+1 consecutive ids: key nodes for the keys
+//!                                      0..K-1 (reading key node j = `selector.selected(&j) as i64`) and the selector node
+//!                                      itself (an executor task like a render effect; not readable, no pause/dispose op)
 //!   eff <expr>
 //!   set <id> <v> | read <id> | poll <i> | idle
 //! <expr> prefix tokens: L<n> | R<id> (tracked read) | U<id> (read under untrack) |
 //!   add e e | mulc <k> e | ite e e e | seq e e | wr <id> e
 use hx_common::sched;
 use reactive_graph::{
-    computed::{ArcMemo, Memo},
+    computed::{ArcMemo, Memo, Selector},
     effect::{Effect, RenderEffect},
     graph::untrack,
     owner::Owner,
-    signal::{ArcRwSignal, RwSignal},
-    traits::{Get, Set},
+    signal::{arc_signal, signal, ArcReadSignal, ArcRwSignal, ArcWriteSignal, ReadSignal, RwSignal, WriteSignal},
+    traits::{Get, GetUntracked, Read, ReadUntracked, Set, Update, With, WithUntracked, Write},
     wrappers::read::{ArcSignal, Signal},
 };
 use std::sync::{Arc, Mutex};
@@ -81,7 +91,10 @@ pub fn show_expr(e: &Expr) -> String {
 pub enum Def {
     Sig(i64),
     Memo(Expr),
+    /// effects AND selector nodes (a selector node's body is its source expression; `Shared::sel` tells them apart)
     Eff(Expr),
+    /// key node `j` of the selector node `.0`: reads `selector.selected(&j) as i64`
+    Key(usize, i64),
 }
 
 /// how an effect node was created (the model sees both as `eff` nodes with different initial state)
@@ -101,9 +114,13 @@ pub enum EffKind {
 enum Handle {
     ArcSig(ArcRwSignal<i64>),
     Sig(RwSignal<i64>),
+    /// `arc_signal()` / `signal()`: the split read / write pair
+    ArcSplit(ArcReadSignal<i64>, ArcWriteSignal<i64>),
+    Split(ReadSignal<i64>, WriteSignal<i64>),
     ArcMemo(ArcMemo<i64>),
     Memo(Memo<i64>),
     Eff,
+    Key(Selector<i64>, i64),
 }
 
 /// how other nodes read a signal/memo: directly, or through a wrapper / derived signal
@@ -143,16 +160,88 @@ pub struct Shared {
     pub log: Vec<RunRec>,
     stack: Vec<RunRec>,
     clock: u64,
+    /// `acc <n>`
+    acc: Option<usize>,
+    /// memoc nodes: the comparator's bucket width
+    pub coarse: Vec<Option<i64>>,
+    /// selector nodes: (first key node id, number of keys)
+    pub sel: Vec<Option<(usize, usize)>>,
+    /// number of harness-level read / set ops so far (their accessor site index)
+    op_sites: usize,
+    /// wake log of the current op in canonical form: task ids in wake order, except that the wake-ups made by one
+    /// selector run's notifications (old key, new key: the real code walks a hash map) are sorted
+    wakes: Vec<usize>,
+    seg: Vec<usize>,
+    seg_open: bool,
+}
+
+impl Shared {
+    /// move the executor's wake log into `wakes` (into the open selector segment, if any)
+    fn sync_wakes(&mut self) {
+        let w = sched::take_wakes();
+        if self.seg_open {
+            self.seg.extend(w)
+        } else {
+            self.wakes.extend(w)
+        }
+    }
+    fn close_seg(&mut self) {
+        self.sync_wakes();
+        self.seg.sort();
+        let seg = std::mem::take(&mut self.seg);
+        self.wakes.extend(seg);
+        self.seg_open = false;
+    }
+    pub fn is_sel(&self, id: usize) -> bool {
+        matches!(self.sel.get(id), Some(Some(_)))
+    }
+    pub fn is_leaf(&self, id: usize) -> bool {
+        matches!(self.coarse.get(id), Some(Some(_)))
+    }
 }
 
 pub type Sh = Arc<Mutex<Shared>>;
 
 /// from-scratch value of a node given the oracle's env (independent of the reactive system)
+/// Key nodes count as inputs here (like a signal written by an effect): their value is what the selector's last
+/// run stored, kept in `env` by `invoke`.  `scratch_deep` looks through the selector.
 pub fn scratch(defs: &[Def], env: &[i64], id: usize) -> i64 {
     match defs.get(id) {
-        Some(Def::Sig(_)) => env[id],
+        Some(Def::Sig(_)) | Some(Def::Key(..)) => env[id],
         Some(Def::Memo(b)) | Some(Def::Eff(b)) => eval_pure(defs, env, b),
         None => 0,
+    }
+}
+
+/// from-scratch value where key node j of a selector is `(from-scratch value of the selector's source) == j`,
+/// unless the selector is excused (paused / not run since it was paused / disposed): then the stored flag
+pub fn scratch_deep(defs: &[Def], env: &[i64], excused: &dyn Fn(usize) -> bool, id: usize) -> i64 {
+    match defs.get(id) {
+        Some(Def::Sig(_)) => env[id],
+        Some(Def::Key(s, j)) => {
+            if excused(*s) {
+                env[id]
+            } else {
+                (scratch_deep(defs, env, excused, *s) == *j) as i64
+            }
+        }
+        Some(Def::Memo(b)) | Some(Def::Eff(b)) => eval_deep(defs, env, excused, b),
+        None => 0,
+    }
+}
+
+fn eval_deep(defs: &[Def], env: &[i64], ex: &dyn Fn(usize) -> bool, e: &Expr) -> i64 {
+    match e {
+        Expr::Lit(n) => *n,
+        Expr::Rd(_, i) => scratch_deep(defs, env, ex, *i),
+        Expr::Add(a, b) => eval_deep(defs, env, ex, a).wrapping_add(eval_deep(defs, env, ex, b)),
+        Expr::Mulc(k, a) => k.wrapping_mul(eval_deep(defs, env, ex, a)),
+        Expr::Ite(c, t, f) => {
+            if eval_deep(defs, env, ex, c) != 0 { eval_deep(defs, env, ex, t) } else { eval_deep(defs, env, ex, f) }
+        }
+        Expr::Seq(_, b) => eval_deep(defs, env, ex, b),
+        Expr::Wr(_, a) => eval_deep(defs, env, ex, a),
+        Expr::Unt(a) => eval_deep(defs, env, ex, a),
     }
 }
 
@@ -192,49 +281,162 @@ pub fn has_write(e: &Expr) -> bool {
     }
 }
 
-fn read_via(h: &Handle, r: &Reader) -> i64 {
-    match r {
-        Reader::Direct => read_handle(h),
-        Reader::Wrapped(s) => s.get(),
-        Reader::ArcWrapped(s) => s.get(),
+/// number of accessor sites (reads and writes) in an expression, in preorder
+pub fn sites(e: &Expr) -> usize {
+    match e {
+        Expr::Lit(_) => 0,
+        Expr::Rd(..) => 1,
+        Expr::Add(a, b) | Expr::Seq(a, b) => sites(a) + sites(b),
+        Expr::Mulc(_, a) | Expr::Unt(a) => sites(a),
+        Expr::Wr(_, a) => 1 + sites(a),
+        Expr::Ite(c, t, f) => sites(c) + sites(t) + sites(f),
     }
 }
 
-fn read_handle(h: &Handle) -> i64 {
-    match h {
-        Handle::ArcSig(s) => s.get(),
-        Handle::Sig(s) => s.get(),
-        Handle::ArcMemo(m) => m.get(),
-        Handle::Memo(m) => m.get(),
-        Handle::Eff => 0,
+/// tracked read accessors (all equal in the model)
+macro_rules! tracked {
+    ($x:expr, $a:expr) => {
+        match $a {
+            None => $x.get(),
+            Some(a) => match a % 3 {
+                0 => $x.get(),
+                1 => $x.with(|v| *v),
+                _ => *$x.read(),
+            },
+        }
+    };
+}
+
+/// untracked read accessors (`U<id>` outside an `unt` scope)
+macro_rules! untracked {
+    ($x:expr, $a:expr) => {
+        match $a {
+            None => untrack(|| $x.get()),
+            Some(a) => match a % 5 {
+                0 => untrack(|| $x.get()),
+                1 => $x.get_untracked(),
+                2 => $x.with_untracked(|v| *v),
+                3 => *$x.read_untracked(),
+                _ => $x.try_get_untracked().unwrap(),
+            },
+        }
+    };
+}
+
+macro_rules! write_acc {
+    ($x:expr, $v:expr, $a:expr) => {
+        match $a {
+            None => $x.set($v),
+            Some(a) => match a % 4 {
+                0 => $x.set($v),
+                1 => $x.update(|x| *x = $v),
+                2 => {
+                    *$x.write() = $v;
+                }
+                _ => {
+                    $x.try_set($v);
+                }
+            },
+        }
+    };
+}
+
+macro_rules! read_with {
+    ($m:ident, $h:expr, $r:expr, $a:expr) => {
+        match $r {
+            Reader::Wrapped(s) => $m!(s, $a),
+            Reader::ArcWrapped(s) => $m!(s, $a),
+            Reader::Direct => match $h {
+                Handle::ArcSig(s) => $m!(s, $a),
+                Handle::Sig(s) => $m!(s, $a),
+                Handle::ArcSplit(s, _) => $m!(s, $a),
+                Handle::Split(s, _) => $m!(s, $a),
+                Handle::ArcMemo(m) => $m!(m, $a),
+                Handle::Memo(m) => $m!(m, $a),
+                Handle::Eff => 0,
+                Handle::Key(..) => unreachable!(),
+            },
+        }
+    };
+}
+
+/// `tracked` = false: the read is written `U<id>` and is not inside an `unt` scope
+fn read_node(h: &Handle, r: &Reader, tracked: bool, a: Option<usize>) -> i64 {
+    if let (Handle::Key(sel, j), Reader::Direct) = (h, r) {
+        // a selector has one accessor
+        return if tracked { sel.selected(j) as i64 } else { untrack(|| sel.selected(j) as i64) };
+    }
+    if tracked {
+        read_with!(tracked, h, r, a)
+    } else {
+        read_with!(untracked, h, r, a)
     }
 }
 
-fn write_handle(h: &Handle, v: i64) {
+fn write_handle(h: &Handle, v: i64, a: Option<usize>) {
     match h {
-        Handle::ArcSig(s) => s.set(v),
-        Handle::Sig(s) => s.set(v),
+        Handle::ArcSig(s) => write_acc!(s, v, a),
+        Handle::Sig(s) => write_acc!(s, v, a),
+        Handle::ArcSplit(_, s) => write_acc!(s, v, a),
+        Handle::Split(_, s) => write_acc!(s, v, a),
         _ => {}
     }
 }
 
-/// interpret an expression against the REAL reactive nodes (called from inside real closures)
-fn interp(sh: &Sh, e: &Expr) -> i64 {
-    interp_in(sh, e, false)
+/// memo constructor picked for node `id`: 0 = `new`, 1 = `new_owning`, 2 = `new_with_compare(f, |a, b| a != b)`
+pub fn memo_ctor(acc: Option<usize>, id: usize) -> u8 {
+    acc.map(|n| ((n + id) % 3) as u8).unwrap_or(0)
 }
 
-fn interp_in(sh: &Sh, e: &Expr, in_unt: bool) -> i64 {
+/// signal `id` is created by `signal()` / `arc_signal()` (split pair) instead of `RwSignal::new`
+pub fn sig_split(acc: Option<usize>, id: usize) -> bool {
+    acc.map(|n| (n / 3 + id) % 2 == 1).unwrap_or(false)
+}
+
+fn ne(a: Option<&i64>, b: Option<&i64>) -> bool {
+    a != b
+}
+
+fn coarse<const K: i64>(a: Option<&i64>, b: Option<&i64>) -> bool {
+    a.map(|x| x.div_euclid(K)) != b.map(|x| x.div_euclid(K))
+}
+
+/// the comparator is a `fn` pointer (cannot capture k): one instance per supported k
+pub fn coarse_fn(k: i64) -> Option<fn(Option<&i64>, Option<&i64>) -> bool> {
+    Some(match k {
+        2 => coarse::<2>,
+        3 => coarse::<3>,
+        4 => coarse::<4>,
+        5 => coarse::<5>,
+        6 => coarse::<6>,
+        7 => coarse::<7>,
+        8 => coarse::<8>,
+        9 => coarse::<9>,
+        _ => return None,
+    })
+}
+
+/// interpret an expression against the REAL reactive nodes (called from inside real closures)
+fn interp(sh: &Sh, node: usize, e: &Expr) -> i64 {
+    let mut pos = 0;
+    interp_in(sh, e, false, node, &mut pos)
+}
+
+/// `pos` = preorder index of the next accessor site of node `node`'s body (skipped branches are counted)
+fn interp_in(sh: &Sh, e: &Expr, in_unt: bool, node: usize, pos: &mut usize) -> i64 {
     match e {
         Expr::Lit(n) => *n,
-        Expr::Unt(a) => untrack(|| interp_in(sh, a, true)),
+        Expr::Unt(a) => untrack(|| interp_in(sh, a, true, node, pos)),
         Expr::Rd(tracked, id) => {
-            let (h, r) = {
+            let site = *pos;
+            *pos += 1;
+            let (h, r, acc) = {
                 let g = sh.lock().unwrap();
-                (g.handles.get(*id).cloned(), g.readers.get(*id).cloned())
+                (g.handles.get(*id).cloned(), g.readers.get(*id).cloned(), g.acc)
             };
             let (Some(h), Some(r)) = (h, r) else { return 0 };
             // inside an `unt` scope the enclosing untrack already hides the observer
-            let v = if *tracked || in_unt { read_via(&h, &r) } else { untrack(|| read_via(&h, &r)) };
+            let v = read_node(&h, &r, *tracked || in_unt, acc.map(|n| n + node * 7 + site));
             let mut g = sh.lock().unwrap();
             let ver = g.ver[*id];
             let expect = scratch(&g.defs, &g.env, *id);
@@ -252,27 +454,36 @@ fn interp_in(sh: &Sh, e: &Expr, in_unt: bool) -> i64 {
             }
             v
         }
-        Expr::Add(a, b) => interp_in(sh, a, in_unt).wrapping_add(interp_in(sh, b, in_unt)),
-        Expr::Mulc(k, a) => k.wrapping_mul(interp_in(sh, a, in_unt)),
+        Expr::Add(a, b) => interp_in(sh, a, in_unt, node, pos).wrapping_add(interp_in(sh, b, in_unt, node, pos)),
+        Expr::Mulc(k, a) => k.wrapping_mul(interp_in(sh, a, in_unt, node, pos)),
         Expr::Ite(c, t, f) => {
-            if interp_in(sh, c, in_unt) != 0 { interp_in(sh, t, in_unt) } else { interp_in(sh, f, in_unt) }
+            if interp_in(sh, c, in_unt, node, pos) != 0 {
+                let v = interp_in(sh, t, in_unt, node, pos);
+                *pos += sites(f);
+                v
+            } else {
+                *pos += sites(t);
+                interp_in(sh, f, in_unt, node, pos)
+            }
         }
         Expr::Seq(a, b) => {
-            interp_in(sh, a, in_unt);
-            interp_in(sh, b, in_unt)
+            interp_in(sh, a, in_unt, node, pos);
+            interp_in(sh, b, in_unt, node, pos)
         }
         Expr::Wr(id, a) => {
-            let v = interp_in(sh, a, in_unt);
-            let h = {
+            let site = *pos;
+            *pos += 1;
+            let v = interp_in(sh, a, in_unt, node, pos);
+            let (h, acc) = {
                 let mut g = sh.lock().unwrap();
                 if matches!(g.defs.get(*id), Some(Def::Sig(_))) {
                     g.env[*id] = v;
                     g.ver[*id] += 1;
                 }
-                g.handles.get(*id).cloned()
+                (g.handles.get(*id).cloned(), g.acc)
             };
             if let Some(h) = h {
-                write_handle(&h, v)
+                write_handle(&h, v, acc.map(|n| n + node * 7 + site))
             }
             v
         }
@@ -283,6 +494,8 @@ fn interp_in(sh: &Sh, e: &Expr, in_unt: bool) -> i64 {
 fn invoke(sh: &Sh, id: usize, body: &Expr) -> i64 {
     {
         let mut g = sh.lock().unwrap();
+        // wake-ups made so far belong to whatever ran before
+        g.close_seg();
         // justification (C09): first run, or a tracked input of the previous run has a new version
         let justified = match &g.last[id] {
             None => true,
@@ -290,7 +503,7 @@ fn invoke(sh: &Sh, id: usize, body: &Expr) -> i64 {
         };
         g.stack.push(RunRec { node: id, justified, ..Default::default() });
     }
-    let v = interp(sh, body);
+    let v = interp(sh, id, body);
     let mut g = sh.lock().unwrap();
     let mut rec = g.stack.pop().unwrap();
     rec.result = v;
@@ -301,6 +514,19 @@ fn invoke(sh: &Sh, id: usize, body: &Expr) -> i64 {
     g.runs[id] += 1;
     g.last[id] = Some(rec.clone());
     g.log.push(rec);
+    if let Some(Some((first, k))) = g.sel.get(id).cloned() {
+        // the selector's source returned `v`: from now on `selected(j)` must answer `j == v`; the notifications that
+        // follow (old key, new key, in hash-map order) form one wake segment
+        for j in 0..k {
+            let flag = (v == j as i64) as i64;
+            if g.env[first + j] != flag {
+                g.env[first + j] = flag;
+                g.ver[first + j] += 1;
+            }
+        }
+        g.sync_wakes();
+        g.seg_open = true;
+    }
     v
 }
 
@@ -310,6 +536,7 @@ pub struct EffSlot {
     _effect: Option<Effect<reactive_graph::owner::LocalStorage>>,
     _effect_sync: Option<Effect<reactive_graph::owner::SyncStorage>>,
     render: Option<RenderEffect<i64>>,
+    _selector: Option<Selector<i64>>,
     pub alive: bool,
     pub paused: bool,
     /// run count when last paused (excused from the convergence oracle until it runs again)
@@ -343,34 +570,133 @@ impl Case {
         self.wrap = w
     }
 
+    pub fn set_acc(&mut self, n: usize) {
+        self.sh.lock().unwrap().acc = Some(n)
+    }
+
     pub fn define(&mut self, d: Def) {
         self.define_kind(d, EffKind::Effect)
     }
 
+    /// `memoc k expr`: a (leaf) memo with the coarse comparator
+    pub fn define_memoc(&mut self, k: i64, b: Expr) {
+        self.define_full(Def::Memo(b), EffKind::Effect, Some(k))
+    }
+
     pub fn define_kind(&mut self, d: Def, kind: EffKind) {
+        self.define_full(d, kind, None)
+    }
+
+    fn push_entry(&mut self, d: Def, h: Handle, reader: Reader, coarse: Option<i64>, sel: Option<(usize, usize)>) {
+        let mut g = self.sh.lock().unwrap();
+        g.env.push(if let Def::Sig(v) = &d { *v } else { 0 });
+        g.defs.push(d);
+        g.handles.push(h);
+        g.readers.push(reader);
+        g.ver.push(0);
+        g.last.push(None);
+        g.runs.push(0);
+        g.coarse.push(coarse);
+        g.sel.push(sel);
+    }
+
+    /// `sel K expr`: ids first..first+K-1 are the key nodes, first+K the selector node
+    pub fn define_sel(&mut self, k: usize, b: Expr) {
+        let first = self.sh.lock().unwrap().defs.len();
+        let node = first + k;
+        for j in 0..k {
+            self.push_entry(Def::Key(node, j as i64), Handle::Eff, Reader::Direct, None, None);
+        }
+        self.push_entry(Def::Eff(b.clone()), Handle::Eff, Reader::Direct, None, Some((first, k)));
+        // under its own child owner like every effect (root pause / resume reaches it)
+        let child = self.owner.child();
+        let sh = self.sh.clone();
+        let sel = child.with(|| Selector::new(move || invoke(&sh, node, &b)));
+        let wrap = self.wrap;
+        let readers: Vec<Reader> = self.owner.with(|| {
+            (0..k)
+                .map(|j| {
+                    if wrap == 2 {
+                        let (s, j) = (sel.clone(), j as i64);
+                        Reader::Wrapped(Signal::derive(move || s.selected(&j) as i64))
+                    } else {
+                        Reader::Direct
+                    }
+                })
+                .collect()
+        });
+        {
+            let mut g = self.sh.lock().unwrap();
+            for (j, r) in readers.into_iter().enumerate() {
+                g.handles[first + j] = Handle::Key(sel.clone(), j as i64);
+                g.readers[first + j] = r;
+            }
+        }
+        self.effs.push(EffSlot {
+            node,
+            owner: child,
+            _effect: None,
+            _effect_sync: None,
+            render: None,
+            _selector: Some(sel),
+            alive: true,
+            paused: false,
+            paused_at_runs: None,
+        });
+    }
+
+    fn define_full(&mut self, d: Def, kind: EffKind, coarse: Option<i64>) {
         let id = self.sh.lock().unwrap().defs.len();
         let sh = self.sh.clone();
         let arena = self.arena;
+        let acc = self.sh.lock().unwrap().acc;
         let h = self.owner.with(|| match &d {
-            Def::Sig(v) => {
-                if arena { Handle::Sig(RwSignal::new(*v)) } else { Handle::ArcSig(ArcRwSignal::new(*v)) }
-            }
+            Def::Sig(v) => match (arena, sig_split(acc, id)) {
+                (true, false) => Handle::Sig(RwSignal::new(*v)),
+                (false, false) => Handle::ArcSig(ArcRwSignal::new(*v)),
+                (true, true) => {
+                    let (r, w) = signal(*v);
+                    Handle::Split(r, w)
+                }
+                (false, true) => {
+                    let (r, w) = arc_signal(*v);
+                    Handle::ArcSplit(r, w)
+                }
+            },
             Def::Memo(b) => {
                 let b = b.clone();
-                if arena {
-                    Handle::Memo(Memo::new(move |_| invoke(&sh, id, &b)))
-                } else {
-                    Handle::ArcMemo(ArcMemo::new(move |_| invoke(&sh, id, &b)))
+                let cmp = coarse.and_then(coarse_fn);
+                match (arena, cmp, memo_ctor(acc, id)) {
+                    (true, Some(c), _) => Handle::Memo(Memo::new_with_compare(move |_| invoke(&sh, id, &b), c)),
+                    (false, Some(c), _) => Handle::ArcMemo(ArcMemo::new_with_compare(move |_| invoke(&sh, id, &b), c)),
+                    (true, None, 0) => Handle::Memo(Memo::new(move |_| invoke(&sh, id, &b))),
+                    (false, None, 0) => Handle::ArcMemo(ArcMemo::new(move |_| invoke(&sh, id, &b))),
+                    (true, None, 1) => Handle::Memo(Memo::new_owning(move |prev: Option<i64>| {
+                        let v = invoke(&sh, id, &b);
+                        (v, prev != Some(v))
+                    })),
+                    (false, None, 1) => Handle::ArcMemo(ArcMemo::new_owning(move |prev: Option<i64>| {
+                        let v = invoke(&sh, id, &b);
+                        (v, prev != Some(v))
+                    })),
+                    (true, None, _) => Handle::Memo(Memo::new_with_compare(move |_| invoke(&sh, id, &b), ne)),
+                    (false, None, _) => Handle::ArcMemo(ArcMemo::new_with_compare(move |_| invoke(&sh, id, &b), ne)),
                 }
             }
-            Def::Eff(_) => Handle::Eff,
+            Def::Eff(_) | Def::Key(..) => Handle::Eff,
         });
         let reader = self.owner.with(|| match (self.wrap, &h) {
             (1, Handle::Sig(x)) => Reader::Wrapped(Signal::from(*x)),
+            (1, Handle::Split(x, _)) => Reader::Wrapped(Signal::from(*x)),
             (1, Handle::Memo(x)) => Reader::Wrapped(Signal::from(*x)),
             (1, Handle::ArcSig(x)) => Reader::ArcWrapped(ArcSignal::from(x.clone())),
+            (1, Handle::ArcSplit(x, _)) => Reader::ArcWrapped(ArcSignal::from(x.clone())),
             (1, Handle::ArcMemo(x)) => Reader::ArcWrapped(ArcSignal::from(x.clone())),
             (2, Handle::Sig(x)) => {
+                let x = *x;
+                Reader::Wrapped(Signal::derive(move || x.get()))
+            }
+            (2, Handle::Split(x, _)) => {
                 let x = *x;
                 Reader::Wrapped(Signal::derive(move || x.get()))
             }
@@ -382,22 +708,17 @@ impl Case {
                 let x = x.clone();
                 Reader::ArcWrapped(ArcSignal::derive(move || x.get()))
             }
+            (2, Handle::ArcSplit(x, _)) => {
+                let x = x.clone();
+                Reader::ArcWrapped(ArcSignal::derive(move || x.get()))
+            }
             (2, Handle::ArcMemo(x)) => {
                 let x = x.clone();
                 Reader::ArcWrapped(ArcSignal::derive(move || x.get()))
             }
             _ => Reader::Direct,
         });
-        {
-            let mut g = self.sh.lock().unwrap();
-            g.env.push(if let Def::Sig(v) = &d { *v } else { 0 });
-            g.defs.push(d.clone());
-            g.handles.push(h);
-            g.readers.push(reader);
-            g.ver.push(0);
-            g.last.push(None);
-            g.runs.push(0);
-        }
+        self.push_entry(d.clone(), h, reader, coarse, None);
         if let Def::Eff(b) = &d {
             // every effect lives under its own child owner so that it can be paused / disposed alone
             let child = self.owner.child();
@@ -422,6 +743,7 @@ impl Case {
                 _effect: eff,
                 _effect_sync: eff_sync,
                 render,
+                _selector: None,
                 alive: true,
                 paused: false,
                 paused_at_runs: None,
@@ -431,6 +753,10 @@ impl Case {
 
     pub fn eff_op(&mut self, node: usize, op: &str) -> bool {
         let runs = self.sh.lock().unwrap().runs.get(node).copied().unwrap_or(0);
+        if self.sh.lock().unwrap().is_sel(node) {
+            // a selector is not an owner-scoped effect: no pause / resume / dispose op on it (root pause reaches it)
+            return false;
+        }
         let Some(slot) = self.effs.iter_mut().find(|s| s.node == node) else { return false };
         match op {
             "pause" => {
@@ -463,7 +789,7 @@ impl Case {
             return false;
         }
         match (&g.defs[x], &g.last[x]) {
-            (Def::Sig(_), _) => false,
+            (Def::Sig(_), _) | (Def::Key(..), _) => false,
             (_, Some(r)) => r.treads.iter().any(|t| Self::depends_on(g, t.0, sig, depth - 1)),
             _ => false,
         }
@@ -487,21 +813,23 @@ impl Case {
             }
             g.env[id] = v;
             g.ver[id] += 1;
-            g.handles[id].clone()
+            g.op_sites += 1;
+            (g.handles[id].clone(), g.acc.map(|n| n + g.op_sites))
         };
-        write_handle(&h, v);
+        write_handle(&h.0, v, h.1);
         true
     }
 
     pub fn read(&self, id: usize) -> Option<i64> {
-        let (h, r) = {
-            let g = self.sh.lock().unwrap();
-            (g.handles.get(id).cloned()?, g.readers.get(id).cloned()?)
+        let (h, r, a) = {
+            let mut g = self.sh.lock().unwrap();
+            g.op_sites += 1;
+            (g.handles.get(id).cloned()?, g.readers.get(id).cloned()?, g.acc.map(|n| n + g.op_sites))
         };
         if matches!(h, Handle::Eff) {
             return None;
         }
-        Some(read_via(&h, &r))
+        Some(read_node(&h, &r, true, a))
     }
 
     /// `Owner::pause` / `Owner::resume` on the ROOT owner of the case (reaches every effect's owner)
@@ -530,6 +858,21 @@ impl Case {
         std::mem::take(&mut self.sh.lock().unwrap().log)
     }
 
+    /// task ids woken since the last call, in canonical wake order (see `Shared::wakes`)
+    pub fn take_wakes(&self) -> Vec<usize> {
+        let mut g = self.sh.lock().unwrap();
+        g.close_seg();
+        std::mem::take(&mut g.wakes)
+    }
+
+    /// is the effect / selector node excused from the convergence oracle?
+    pub fn excused(&self, node: usize, runs: &[u64]) -> bool {
+        match self.effs.iter().find(|s| s.node == node) {
+            Some(s) => !s.alive || s.paused || s.paused_at_runs == Some(runs[node]),
+            None => false,
+        }
+    }
+
     /// effect node ids in definition order; the k-th spawned task is the k-th effect
     pub fn effect_ids(&self) -> Vec<usize> {
         let g = self.sh.lock().unwrap();
@@ -547,11 +890,11 @@ impl Case {
         let g = self.sh.lock().unwrap();
         fn cur(g: &Shared, id: usize) -> bool {
             match &g.defs[id] {
-                Def::Sig(_) => true,
+                Def::Sig(_) | Def::Key(..) => true,
                 _ => match &g.last[id] {
                     None => false,
                     Some(r) => r.treads.iter().all(|(x, v, _)| match &g.defs[*x] {
-                        Def::Sig(_) => g.env[*x] == *v,
+                        Def::Sig(_) | Def::Key(..) => g.env[*x] == *v,
                         _ => cur(g, *x) && g.last[*x].as_ref().map(|r| r.result) == Some(*v),
                     }),
                 },
@@ -574,6 +917,12 @@ impl Case {
 impl Drop for Case {
     fn drop(&mut self) {
         self.effs.clear();
+        // the handles hold closures that hold `sh`: break the cycle
+        let (hs, rs) = {
+            let mut g = self.sh.lock().unwrap();
+            (std::mem::take(&mut g.handles), std::mem::take(&mut g.readers))
+        };
+        drop((hs, rs));
         self.owner.cleanup();
         sched::reset();
     }
